@@ -140,6 +140,16 @@ func init() {
 	})
 
 	readFile := func(e *Exec, args []Value, fn *ssa.Function) Value {
+		if e.vfsState != nil {
+			p := e.vpath(args[0])
+			e.vRecord(p)
+			if f := e.vfind(p); f != nil {
+				return Tuple{e.newByteSlice(append([]*Term(nil), f.data...)), Iface{}}
+			}
+			if p.Conc() && strings.HasPrefix(p.s, "/vfs/") {
+				return Tuple{Slice{}, e.vfsErr("open", p, "no such file or directory", true)}
+			}
+		}
 		name := e.goString(args[0])
 		if !filepath.IsAbs(name) {
 			name = filepath.Join(e.cfg.RepoDir, e.cfg.Pkg, name)
@@ -443,7 +453,10 @@ func init() {
 	for _, n := range []string{"Fatal", "Fatalf", "Fatalln", "Panic", "Panicf", "Panicln"} {
 		n := n
 		f := func(e *Exec, args []Value, fn *ssa.Function) Value {
-			e.violation("panic", "log."+n, "log."+n+" called (process exit / panic)")
+			// process exit (Fatal*) or panic (Panic*): raised as a Go-level panic so
+			// that a harness may treat it as an expected outcome; unrecovered it is
+			// reported as a violation like any other panic
+			e.goPanicValue(e.mkErrorS("log." + n + " called (process exit / panic)"))
 			return nil
 		}
 		reg("log."+n, f)
